@@ -23,3 +23,14 @@ fn c03_between_ops_are_comparisons() {
     kani::cover!(true);
     assert!(is_cmp_op(&lo) && is_cmp_op(&hi), "OBL C03: BETWEEN never leaves Op::Between/NotBetween in the tree");
 }
+
+#[kani::proof]
+#[kani::unwind(12)]
+fn c11_between_case() {
+    kani::cover!(true);
+    assert!(frag_is_between(String::from("between")), "OBL C11.between.case: between");
+    assert!(frag_is_between(String::from("BETWEEN")), "OBL C11.between.case: BETWEEN");
+    assert!(frag_is_between(String::from("Between")), "OBL C11.between.case: Between");
+    assert!(!frag_is_between(String::from("like")), "OBL C11.between.case: like is not BETWEEN");
+    assert!(!frag_is_between(String::from("betwee")), "OBL C11.between.case: prefix is not BETWEEN");
+}
